@@ -112,6 +112,18 @@ def op_to_coq(op):
         return "(OExpand %d)" % op["arg"]
     if o == "util" and op["fn"] == "compress_markings":
         return "(OCompress %d)" % op["arg"]
+    if o == "copy":
+        return "(OCopy %d)" % op["arg"]
+    if o == "util" and op["fn"] == "deduplicate":
+        return "(ODeduplicate %d)" % op["arg"]
+    if o == "mark" and op.get("level", "api") == "api" and op["fn"] in ("clear_markings", "set_markings") and \
+            op.get("opts") and set(op["opts"]) <= {"marking_ref", "lang"} and op.get("selectors") is not None:
+        mr, lg = b(op["opts"].get("marking_ref", True)), b(op["opts"].get("lang", True))
+        if op["fn"] == "clear_markings":
+            return "(OClearOpts %d %d %s %s)" % (op["arg"], op["selectors"], mr, lg)
+        if "marking" in op:
+            return "(OSetOpts %d %d %d %s %s)" % (op["arg"], op["marking"], op["selectors"], mr, lg)
+        return None
     if o == "mark" and op.get("level", "api") == "api":
         fn = op["fn"]
         ctor = {"set_markings": "ASet", "remove_markings": "ARemove", "add_markings": "AAdd", "clear_markings": "AClear",
@@ -524,7 +536,7 @@ def sc_api_markings(rng):
         mk = b.mk(rng.choice([kwt["object_marking_refs"][0], list(kwt["object_marking_refs"])]))
     cur = obj
     for _ in range(rng.randint(2, 5)):
-        r = rng.randrange(12)
+        r = rng.randrange(13)
         meth = {"method": True} if rng.random() < 0.4 else {}
         withsel = rng.random() < 0.6
         sel = {"selectors": sels} if withsel else {}
@@ -551,6 +563,18 @@ def sc_api_markings(rng):
             n = b.add(op="mark", fn="set_markings", level="object", arg=cur, marking=mk)
         elif r == 9:
             n = b.add(op="remove_custom", arg=cur)
+        elif r == 10 and rng.random() < 0.7:
+            opts = rng.choice([{"marking_ref": False}, {"lang": False}, {"marking_ref": True, "lang": False},
+                               {"marking_ref": False, "lang": False}])
+            if rng.random() < 0.5:
+                n = b.add(op="mark", fn="clear_markings", arg=cur, selectors=sels, opts=opts)
+            else:
+                n = b.add(op="mark", fn="set_markings", arg=cur, marking=mk, selectors=sels, opts=opts)
+        elif r == 11 and rng.random() < 0.5:
+            n = b.add(op="copy", arg=rng.choice([cur, kw, sels]))
+        elif r == 11:
+            n = b.add(op="util", fn="deduplicate", arg=b.mk([Ref(cur), Ref(obj), Ref(cur)]))
+            continue
         else:
             n = b.add(op="mark", fn="remove_markings", level="object", arg=cur, marking=mk)
         if rng.random() < 0.5:
